@@ -370,7 +370,7 @@ def build_unit(spec, tier, workdir, repo_root=None, variant_defs=(), extra_defs=
 def cbmc_cmd(spec, gb, tier, trace=False):
     cmd = ['cbmc', '--json-ui', '--object-bits', str(spec['object_bits'] or 12),
            '--bounds-check', '--pointer-check', '--div-by-zero-check',
-           '--pointer-primitive-check']
+           '--pointer-primitive-check', '--slice-formula']
     cmd += spec['cbmc_flags']
     if spec['mode'] == 'bounded':
         cmd += ['--unwind', str(spec['unwind']), '--unwinding-assertions']
